@@ -69,3 +69,17 @@ def loopspec():
         {"id": 5, "dec": "b64_maxlen - b64_pos", "assigns": "b64_pos,__CPROVER_object_upto(b64,b64_maxlen)",
          "inv": "b64_pos >= b64_len && b64_pos < b64_maxlen && %s && ((g_k >= b64_len && g_k < b64_pos) ==> b64[g_k] == 0)" % tail.replace("g_k < b64_pos) ==> b64[g_k] == 61", "g_k < b64_len) ==> b64[g_k] == 61")},
     ]}
+
+
+HEADER = '''/* GENERATED from vlib/b64spec.py (tools/gen_contract_headers.py, also refreshed by obligations/C15.py when stale) - do not edit.
+ * Unbounded functional contract of sodium_bin2base64 (C15, C12), quantifier free with the ghost index g_k:
+ *   character k < ceil(8 len / 6) is the RFC 4648 character of the k-th 6-bit group of the input (zero padded),
+ *   then '=' up to the padded length (padding variants), then zero bytes up to b64_maxlen; the buffer is returned. */
+#pragma once
+#include <stddef.h>
+extern size_t g_k;
+'''
+
+
+def header():
+    return HEADER + contract()
